@@ -76,6 +76,16 @@ def setup_env(w):
     return w
 
 
+def setup_env_full(w):
+    """All environment services interpreted from the real classes (oracles, serializer)."""
+    setup_env(w)
+    for attr, cls in (("_qfo", "pysmt.oracles.QuantifierOracle"), ("_theoryo", "pysmt.oracles.TheoryOracle"),
+                      ("_sizeo", "pysmt.oracles.SizeOracle"), ("_ao", "pysmt.oracles.AtomsOracle"),
+                      ("_typeso", "pysmt.oracles.TypesOracle"), ("_serializer", "pysmt.printers.HRSerializer")):
+        w.env.attrs[attr] = w.new_walker(cls, w.env)
+    return w
+
+
 class ProcResult(object):
     def __init__(self, shape, kind, detail, result=None, facts=()):
         self.shape = shape
@@ -91,7 +101,9 @@ def run_proc(shape, call, check_equiv=True, shape_pred=None, max_paths=64, servi
     def one(ex):
         it = Interp(ex, **(interp_kwargs or {}))
         w = (world_cls or World)().attach(it)
-        if services:
+        if services == "full":
+            setup_env_full(w)
+        elif services:
             setup_env(w)
         f = build_shape(w, shape.t)
         r = call(w, it, f)
@@ -107,7 +119,7 @@ def run_proc(shape, call, check_equiv=True, shape_pred=None, max_paths=64, servi
             out.append(ProcResult(shape, "unsupported", str(p.value), facts=facts))
             continue
         if p.kind == "raise":
-            out.append(ProcResult(shape, "raises", "%s%s" % (p.value.cls_name, _args(p.value)), facts=facts))
+            out.append(ProcResult(shape, "raises", "%s%s%s" % (p.value.cls_name, _args(p.value), _trace(p.value)), facts=facts))
             continue
         w, f, r = p.value
         if post is not None:
@@ -130,6 +142,12 @@ def run_proc(shape, call, check_equiv=True, shape_pred=None, max_paths=64, servi
         else:
             out.append(ProcResult(shape, "valid", "shape only", rs, facts))
     return out
+
+
+def _trace(ex):
+    import os
+    tr = getattr(ex, "trace", None)
+    return (" @ " + " < ".join(tr[:6])) if tr and os.environ.get("SA_TRACE") else ""
 
 
 def _args(ex):
